@@ -211,4 +211,42 @@ theorem offsets_distinct_reachable (o : WOpts) (s0 s : WState) (ops : List Op)
     (hs : e.inStream = 0) (hs' : e'.inStream = 0) (hp : 0 ≤ e.pos) (heq : e.pos = e'.pos) : n = n' :=
   offsets_distinct_inv (C02fiob.run_inv ops (C02fiob.init_inv o s0 h0) hr) n n' e e' hn hn' hs hs' hp heq
 
+/-! ### every object stands in front of the cross-reference section -/
+
+/-- **objects_before_xref.**  Table form, after a successful `Close`: every in-use entry's object
+header `N G obj` lies completely in front of the offset `x` that `startxref` names (and
+`checkTail` returns) — no entry points into the table, the trailer or behind the file. -/
+theorem objects_before_xref {s s' : WState} {cat : Obj} {info : Option Obj} {tr : List (Bytes × Obj)} {raw : Bytes}
+    (hi : Inv s) (hobj : s.opts.objStm = false) (h : close s cat info tr raw = .ok s')
+    (hsize : s'.out.length < 10000000000) :
+    ∃ x, Spec.FileWF.checkTail s'.out = .ok x ∧
+      ∀ n e, s'.xref.get n = some e → 0 ≤ e.pos → e.pos.toNat + (objHeader n e.gen).length ≤ x := by
+  obtain ⟨s2, body, td, i2, n2, hb, hout, hx, hnr, hstm⟩ := close_table_layout hi hobj h
+  have hnoStm : hasInStream s2.xref s2.nextRef = false := by
+    unfold xrefTableBody at hb
+    split at hb
+    · simp at hb
+    · rename_i hh; simpa using hh
+  have hins : ∀ n e, s2.xref.get n = some e → e.inStream = 0 := by
+    intro n e hg
+    have hlt := i2.below n e hg
+    unfold hasInStream at hnoStm
+    have := List.any_eq_false.1 hnoStm n (by simp; exact hlt)
+    simp [hg] at this
+    exact this
+  have hpos19 : s2.pos < 10 ^ 19 := by
+    rw [i2.pos_eq]; rw [hout] at hsize; simp at hsize; omega
+  refine ⟨s2.pos, ?_, ?_⟩
+  · rw [hout]
+    have : s2.out ++ (body ++ kTrailerNL ++ td ++ [10]) ++ (kStartxref ++ decOf s2.pos ++ kEOF)
+        = (s2.out ++ (body ++ kTrailerNL ++ td)) ++ [10] ++ kStartxref ++ decOf s2.pos ++ kEOF := by simp
+    rw [this]
+    exact spec_tail_ok _ _ hpos19
+  · intro n e hg hp
+    rw [hx] at hg
+    rcases i2.entries n e hg (hins n e hg) hp with ha | ⟨st, h1, _⟩
+    · have := ha.end_le
+      rw [i2.pos_eq]; exact this
+    · rw [n2] at h1; cases h1
+
 end PdfVerif.C03fiob
